@@ -1,6 +1,6 @@
 """C05 — failures are contained, reported, never recorded as success (DESIGN 5.5)."""
 from facts import AnalysisBroken
-from model import dstr, strip, fact_holds, mentions_field, mentions_call, mentions_var, const_value
+from model import mentions_enum, dstr, strip, fact_holds, mentions_field, mentions_call, mentions_var, const_value
 from props.scan_common import check_build_exit_codes
 from rules import (guarded, calls_to, field_writes, who_may_write, error_discipline, atom_cmp,
                    is_enum, is_var, is_field, has_field, anything, must_pass, basename, origins, deep_resolve)
@@ -356,10 +356,22 @@ def run(ctx):
         if fact_holds(pes.facts_at(e), wifexited, True):
             ctx.check('C05.G4', is_wexitstatus(deep_resolve(pes, e.get('e'))), pes.name, 'WIFEXITED:status-not-transparent', pes.where(e),
                       'under WIFEXITED the exit code is returned as it is (`%s`)' % (e.get('src') or '')[:60])
+    # the status of a failed command reaches the exit code untouched: FinishCommand replaces result.status only to
+    # downgrade a *successful* command (unusable deps information), never to overwrite a failure status with another
+    fcm = prog.fn('Builder::FinishCommand')
+    nst = 0
+    for e in fcm.stores():
+        if mentions_field(e.get('l'), STATUS):
+            nst += 1
+            ok = fact_holds(fcm.facts_at(e), lambda a: mentions_field(a, STATUS) and mentions_enum(a, 'ExitSuccess'), True) or \
+                fact_holds(fcm.facts_at(e), lambda a: mentions_call(a, 'BuildResult::CommandCompleted::success'), True)
+            ctx.check('C05.G4', ok, fcm.name, 'status:failure-code-overwritten', fcm.where(e),
+                      'result.status is replaced only where the command is known to have succeeded')
+    ctx.check('C05.G4', nst >= 1, fcm.name, 'status:downgrade-absent', fcm.loc, 'FinishCommand downgrades a success whose deps cannot be used (%d stores)' % nst)
     for f, e in calls_to(prog, 'ParseExitStatus'):
         ctx.check('C05.G4', not e.get('disc'), f.name, 'ParseExitStatus:discarded', f.where(e),
                   'the parsed status is stored (%s)' % f.name)
-    ctx.floor('C05.G4', 3)
+    ctx.floor('C05.G4', 5)
 
     # ---- E1 -------------------------------------------------------------------------------------
     R('C05.E1', 'E1', 'error discipline over build.cc and ninja.cc: fallible results are used and '
